@@ -164,6 +164,122 @@ def src_state(src):
     return src
 
 
+# ------------------------------------------------------------------ ragged scenarios
+def rspec_disk(st, sess):
+    """abstract disk part of a Ragged spec state, in the units the projection uses"""
+    def tails(t, half):
+        return half if t else 0
+    vhalf = (sess.cfg.rowbytes * sess.rc.block) // 2
+    ihalf = sess_irowbytes(sess) // 2
+    tr = st['treadme']
+    return {'vrows': tuple(st['vrows']), 'vtail': tails(st['vtail'], vhalf), 'vdescr': dict(st['vdescr']),
+            'vreadme': dict(st['vreadme']), 'irows': tuple(tuple(x) for x in st['irows']), 'itail': tails(st['itail'], ihalf),
+            'idescr': dict(st['idescr']), 'ireadme': dict(st['ireadme']), 'tdescr': dict(st['tdescr']),
+            'treadme': {'k': 'ok', 'n': tr['n'], 'listed': tuple(tuple(x) for x in tr['listed'])} if tr.get('k') == 'ok' else dict(tr)}
+
+
+def sess_irowbytes(sess):
+    return 2 * np.dtype(sess.rc.indextype).itemsize
+
+
+def robs_disk(o):
+    def norm(d):
+        return {k: v for k, v in d.items() if k != 'why'} if isinstance(d, dict) else d
+    return {'vrows': o['vrows'], 'vtail': o['vtail_bytes'], 'vdescr': norm(o['vdescr']), 'vreadme': norm(o['vreadme']),
+            'irows': o['irows'], 'itail': o['itail_bytes'], 'idescr': norm(o['idescr']), 'ireadme': norm(o['ireadme']),
+            'tdescr': norm(o['tdescr']), 'treadme': norm(o['treadme'])}
+
+
+def rchains(g, node, limit=80):
+    from .. import raggedmodel as rm
+    out = []
+
+    def rec(n, acc):
+        s = g.nodes[n]
+        acc.append(s)
+        if rm.quiescent(s):
+            out.append(list(acc))
+        elif len(acc) < limit:
+            for (_, _, m) in g.edges.get(n, []):
+                rec(m, acc)
+        acc.pop()
+    rec(node, [])
+    return out
+
+
+def scenario_ragged(job):
+    from .. import raggedmodel as rm
+    gi, idx, cfgi = job
+    g, mg, macros, binding = _CTX['graphs'][gi]
+    m = macros[idx]
+    src = mg.rep[m.src]
+    sess = binding.make_session(cfgi, m)
+    store = tempfile.mkdtemp(prefix='darrcrashr_')
+    res = {'gi': gi, 'idx': idx, 'label': m.label(), 'cfg': sess.describe(), 'viol': [], 'nonconf': [],
+           'snaps': 0, 'variants': 0, 'opens': 0, 'opened_ok': 0, 'ragged': True}
+    try:
+        sess.materialize(src)
+        first = None
+        for (name, args, dst) in g.edges.get(_CTX['srcnode'][gi][m.src], []):
+            if name == m.name and args == m.args:
+                first = dst
+        if first is None:
+            raise Machinery('macro-edge not found in graph')
+        pc = g.nodes[first]['pc']
+        if pc.get('op') == 'idle':
+            legit = {tuple(tuple(x) for x in src['ref']), tuple(tuple(x) for x in g.nodes[first]['ref'])}
+        else:
+            legit = {tuple(tuple(y) for y in x) for x in pc['legit']}
+        sn = crash.Snapshots(sess.path, store)
+        try:
+            sn.run(lambda: sess.step(m.name, m.args))
+        except am.Skip as e:
+            res['skipped'] = str(e)
+            return res
+        res['snaps'] = len(sn.snaps)
+        res['events'] = sn.events
+        dirs = [d for (_, d) in sn.snaps]
+        allv = []
+        for i, (where, d) in enumerate(sn.snaps):
+            allv.append((where, 'snapshot', d))
+            if i > 0:
+                for (rel, n, vd) in crash.torn_variants(dirs[i - 1], d, store, 'torn%03d' % i):
+                    allv.append((where, 'torn %s to %d bytes' % (rel, n), vd))
+        res['variants'] = len(allv) - len(sn.snaps)
+        views = []
+        for (where, what, d) in allv:
+            save = sess.path
+            sess.path = d
+            try:
+                o = sess.observe(reads=False)
+            finally:
+                sess.path = save
+            res['opens'] += 1
+            if what == 'snapshot':
+                views.append(robs_disk(o))
+            fr = o['fresh']
+            if 'raises' in fr or 'error' in fr:
+                continue
+            res['opened_ok'] += 1
+            if tuple(fr['subs']) not in legit:
+                res['viol'].append({'where': where, 'what': what, 'opened_with_subarrays': fr['subs'],
+                                    'legit': sorted(legit)})
+        observed = dedup(views)
+        ok, best = False, None
+        for ch in rchains(g, first):
+            sc = dedup([rspec_disk(src, sess)] + [rspec_disk(x, sess) for x in ch])
+            if is_subsequence(observed, sc) and observed[-1] == sc[-1]:
+                ok = True
+                break
+            best = sc
+        if not ok:
+            res['nonconf'].append({'observed': observed[:6], 'spec_chain': (best or [])[:6]})
+    finally:
+        sess.close()
+        shutil.rmtree(store, ignore_errors=True)
+    return res
+
+
 def _unfreeze_map(x):
     if isinstance(x, tuple) and len(x) == 2 and x[0] == '#map':
         return {k: v for k, v in x[1]}
@@ -181,7 +297,7 @@ def _job(batch):
     out = []
     for j in batch:
         try:
-            out.append(scenario(j))
+            out.append(scenario_ragged(j) if _CTX['graphs'][j[0]][3].__class__.__name__ == 'RBinding' else scenario(j))
         except Exception:
             out.append({'error': traceback.format_exc(), 'job': j})
     return out
@@ -219,6 +335,25 @@ def run(tier, seed):
         macros = [m for m in mg.all_macros() if m.name in ('IA_Call', 'TR_Call', 'M_Call', 'IA_CallBadAppend')
                   and mg.rep[m.src]['mode'] == 'r+']
         graphs.append((g, mg, macros, binding))
+    # ragged arrays: CrashSafe on spec/Ragged.tla with crashes and faults; scenarios from its crash-free graph
+    from .. import raggedmodel as rm
+    from .raggedhist import Binding as _RB, edge_class as redge_class
+
+    class RBinding(_RB):
+        pass
+    r3, _ = rm.run_instance('C17_crash_ragged', invariants=['CrashSafe', 'TypeOK'], properties=(), dump=False,
+                            Ops=['append', 'truncate'], Faults=True, Crashes=True, MaxSub=3 if thorough else 2,
+                            InitRefs=[(), ((2, 1), ())], TruncArgs=[0, 1, -1])
+    tlc.check_coverage(r3, ['Crash', 'RA_WriteCrash', 'RA_IWriteCrash', 'RA_RollbackV', 'RT_IOsTruncate', 'UL_JsonTrunc'],
+                       'C17_crash_ragged')
+    run.tlc('Ragged_crash', r3)
+    rr, rg = rm.run_instance('C17_graph_ragged', invariants=['TypeOK'], properties=(), Ops=['append', 'truncate'],
+                             Faults=True, MaxSub=2, InitRefs=[(), ((2, 1), ())], TruncArgs=[0, 1, -1])
+    run.tlc('Ragged_graph', rr)
+    rmg = walk.MacroGraph(rg, rm.quiescent, forget=('out',))
+    rmacros = [m for m in rmg.all_macros() if m.name in ('RA_Call', 'RT_Call', 'RA_CallBadAppend')
+               and rmg.rep[m.src]['mode'] == 'r+']
+    graphs.append((rg, rmg, rmacros, RBinding(rm.pick_rconfigs(ncfg, seed))))
     srcnode = []
     for (g, mg, macros, _) in graphs:
         mp_ = {}
@@ -234,8 +369,9 @@ def run(tier, seed):
             rnd.shuffle(idxs)
             seen = {}
             keep = []
+            ec = redge_class if gi == len(graphs) - 1 else edge_class
             for i in idxs:
-                c = edge_class(macros[i], mg.rep[macros[i].src])
+                c = ec(macros[i], mg.rep[macros[i].src])
                 if seen.get(c, 0) < 4:
                     seen[c] = seen.get(c, 0) + 1
                     keep.append(i)
@@ -263,7 +399,8 @@ def run(tier, seed):
         run.add('opened_successfully', r['opened_ok'])
         run.add('line_events', r.get('events', 0))
         for v in r['viol']:
-            sig = 'C17|%s|%s' % (edge_class(m, mg.rep[m.src]), v['what'].split(' to ')[0])
+            ecl = (redge_class if r.get('ragged') else edge_class)(m, mg.rep[m.src])
+            sig = 'C17|%s%s|%s' % ('ragged|' if r.get('ragged') else '', ecl, v['what'].split(' to ')[0])
             run.violation(sig, {'scenario': r['label'], 'config': r['cfg'], **v},
                           {'kind': 'crash', 'from': mg.rep[m.src], 'name': m.name, 'args': m.args, 'config': r['cfg']})
         if r['nonconf']:
@@ -283,8 +420,7 @@ def run(tier, seed):
                        'or show a member of the spec\'s legit set')
     run.assumptions += ['a crash is a process death: what was write()n persists (no power-loss reordering)',
                         'line granularity of sys.settrace inside darr/ (effects inside one C call are one step)']
-    if nonconf:
-        raise Machinery('%d scenarios whose observed write order is not a behaviour of spec/Array.tla; the spec '
-                        'must be brought in line with the code before its TLC result can be relied on' % nonconf) \
-            if os.environ.get('VERIF_STRICT_ORDER') else None
+    if nonconf and os.environ.get('VERIF_STRICT_ORDER'):
+        raise Machinery('%d scenarios whose observed write order is not a behaviour of the spec; the spec '
+                        'must be brought in line with the code before its TLC result can be relied on' % nonconf)
     return run.finish()
